@@ -215,6 +215,28 @@ pub fn check(case: &FlagCase, probe: &Probe) -> Verdict {
     if fake.seen().len() != before {
         return Verdict::Fail(show(&format!("rejected usages caused {} endpoint request(s): something was validated", fake.seen().len() - before), &[], &base));
     }
+    // whitespace-padded names: either rejected like any unknown name, or honoured exactly as the trimmed name —
+    // never accepted and then ignored
+    for (flag, padded) in [('d', "keep-sorted "), ('e', " keep-sorted"), ('e', "line-count "), ('d', "\taffects")] {
+        probe.evals(1);
+        let args = vec![format!("-{flag}"), padded.to_string()];
+        let o = run_with(&args);
+        if o.panicked() || o.timed_out {
+            return Verdict::Fail(show("crash on a padded validator name", &args, &o));
+        }
+        let rejected = o.code != Some(0) && !parse_diags(&o.stderr).is_ok_and(|d| !d.is_empty());
+        if rejected {
+            probe.class("padded-name:rejected");
+            continue;
+        }
+        let trimmed = vec![format!("-{flag}"), padded.trim().to_string()];
+        let t = run_with(&trimmed);
+        let (a, b) = (parse_diags(&o.stderr), parse_diags(&t.stderr));
+        if a.is_err() || a != b || o.code != t.code {
+            return Verdict::Fail(show(&format!("validator name {padded:?} was accepted but not honoured: the run differs from the one with the trimmed name {:?}\n--- with the trimmed name ---\n{}", padded.trim(), t.brief()), &args, &o));
+        }
+        probe.class("padded-name:honoured-as-trimmed");
+    }
     Verdict::Pass
 }
 
